@@ -332,3 +332,114 @@ func mixedAt(texts [][]itemT) int {
 	}
 	return -1
 }
+
+// cycleAt returns the index of the first text of declarations with an initialization cycle: a
+// package-level variable whose initialiser refers to the variable itself, directly or through the
+// functions and methods DECLARED IN THE SAME TEXT (those bind the text's own variables; a function
+// compiled by an earlier text keeps the variables it was compiled against) or through other
+// variables of the text. Go rejects such a file ("initialization cycle"); the sequential program of
+// a history cannot express it (its initialisers are assignments), so the session is expected to
+// stop at that text with "variable definition loop". -1 if there is none.
+func cycleAt(texts [][]itemT) int {
+	for k, t := range texts {
+		if len(t) == 0 || t[0].isStmt() {
+			continue
+		}
+		vars := map[string]*itemT{}
+		funcs := map[string]*bodyT{}
+		for i := range t {
+			it := &t[i]
+			switch it.K {
+			case "var", "closure":
+				vars[it.X] = it
+			case "func":
+				funcs["f:"+it.X] = it.B
+			case "method":
+				funcs["m:"+it.X+"."+it.M] = it.B
+			}
+		}
+		// refs: the variables of the text an initialiser refers to, through the text's functions
+		refsOf := func(it *itemT) map[string]bool {
+			out := map[string]bool{}
+			seen := map[string]bool{}
+			var we func(e *exprT)
+			var wb func(b *bodyT)
+			follow := func(key string) {
+				if b, ok := funcs[key]; ok && !seen[key] {
+					seen[key] = true
+					wb(b)
+				}
+			}
+			we = func(e *exprT) {
+				if e == nil {
+					return
+				}
+				switch e.K {
+				case "glob", "callv":
+					if _, ok := vars[e.X]; ok {
+						out[e.X] = true
+					}
+				case "call":
+					follow("f:" + e.X)
+				case "mcall":
+					follow("m:" + e.X + "." + e.M)
+				}
+				we(e.A)
+				we(e.B)
+			}
+			wb = func(b *bodyT) {
+				if b == nil {
+					return
+				}
+				we(b.Guard)
+				we(b.Ret)
+				for i := range b.Stmts {
+					if st := &b.Stmts[i]; st.K == "set" {
+						if _, ok := vars[st.X]; ok {
+							out[st.X] = true
+						}
+					}
+					we(b.Stmts[i].E)
+				}
+			}
+			we(it.E)
+			wb(it.B)
+			return out
+		}
+		graph := map[string]map[string]bool{}
+		for x, it := range vars {
+			graph[x] = refsOf(it)
+		}
+		// a cycle: some variable reaches itself
+		for x := range graph {
+			seen := map[string]bool{}
+			stack := []string{x}
+			for len(stack) > 0 {
+				y := stack[len(stack)-1]
+				stack = stack[:len(stack)-1]
+				for z := range graph[y] {
+					if z == x {
+						return k
+					}
+					if !seen[z] {
+						seen[z] = true
+						stack = append(stack, z)
+					}
+				}
+			}
+		}
+	}
+	return -1
+}
+
+// stopAt: the first text at which a session must stop, and how (parse | defloop); -1 if none.
+func stopAt(texts [][]itemT) (int, string) {
+	m, c := mixedAt(texts), cycleAt(texts)
+	switch {
+	case m >= 0 && (c < 0 || m <= c):
+		return m, "parse"
+	case c >= 0:
+		return c, "defloop"
+	}
+	return -1, ""
+}
